@@ -570,3 +570,43 @@ def polygons_mask_ok(ctx: Context, fi: FuncInfo) -> tuple[bool, str]:
             return False, f"mask built by an unrecognised construction ({norm_text(v)[:60]})"
         return False, f"mask built as {norm_text(v)[:80]}"
     return True, 'mask[n] = polygons[n] is not None'
+
+
+
+def known_empty(fi: FuncInfo, node: ast.AST, flow: Flow, is_subject) -> Optional[bool]:
+    """On every path to `node`: is the sized subject known empty (True) / non-empty (False)?"""
+    for test, pol in path_conditions(fi, node):
+        t = emptiness_test(flow, test)
+        if t is not None and t[0] in ('empty', 'nonempty') and is_subject(t[1]):
+            empty = t[0] == 'empty'
+            return empty if pol else (not empty)
+    return None
+
+
+def purity_obligations(ctx: Context, rule: str, fi: FuncInfo, params: Iterable[str], what: str) -> None:
+    """No store, deletion or in-place method through any alias of the given parameters (numpy copy semantics included)."""
+    from ..effects import writes_through
+    flow = ctx.flow(fi)
+    funcs = [fi] + [f for f in ctx.p.functions.values() if f.parent is fi]
+    from ..effects import roots_of
+    nested = [f for f in funcs if f is not fi]
+    mutated = {}      # nested helper name -> positions of parameters it writes through
+    for f in nested:
+        fl = ctx.flow(f)
+        pos = [i for i, q in enumerate(f.params) if writes_through(f, fl, q)]
+        if pos:
+            mutated[f.name] = (f, pos)
+    for prm in params:
+        bad = []
+        for f in funcs:
+            fl = ctx.flow(f)
+            bad += [(n, how, f) for n, how in writes_through(f, fl, prm)]
+        # a local helper that modifies its argument, called with (a view of) the parameter
+        for call in calls_in(fi, nested=False):
+            if isinstance(call.func, ast.Name) and call.func.id in mutated:
+                f, pos = mutated[call.func.id]
+                for i in pos:
+                    if i < len(call.args) and ('param:' + prm) in roots_of(flow, call.args[i]):
+                        bad.append((call, f"{f.name}() modifies its argument {f.params[i]!r} in place", fi))
+        ctx.check(rule, not bad, f"{what}: nothing is written through `{prm}` (no store, in-place method or non-copying view that is then modified)", fi,
+                  bad[0][0] if bad else fi.node, construct=f"{fi.short}: writes through `{prm}`: " + ('; '.join(sorted({h for _, h, _ in bad})) if bad else 'none'))
